@@ -116,6 +116,11 @@ class ExprGen:
         self.sharable: List[dict] = []
         self.in_progress: List[int] = []
         self.sid = 0
+        # method-built sub-objects of operations already sent, kept by the caller and put into a later, freshly built tree
+        self.alias_seen: Dict[Tuple[str, str], set] = {}
+        self.nid = 0
+        self.sent_nodes: List[dict] = []
+        self.reused_in_op: set = set()
 
     def value_for(self, t, depth=0):
         """A value spec for GraphQL input type t: ("int", 3) / ("enum", "Color", "RED") / ("input", "Name", {...}) / ("list", [...])."""
@@ -227,7 +232,32 @@ class ExprGen:
                 return e
             self.counter += 1
             e["alias"] = "%s%d" % (ch.pick("e.aliasn", ["al", "renamed_", "Xy"]), self.counter)
+            if e["how"] in ("attr", "uattr"):
+                # (recorded when drawn: the interpreter may have called .alias() on the shared object even if the operation
+                # was never sent)
+                self.alias_seen.setdefault((parent_type.name, fname), set()).add(e["alias"])
         return e
+
+    def _nids(self, e) -> set:
+        out = {e["nid"]} if e.get("nid") is not None else set()
+        if e.get("reuse_nid") is not None:
+            out.add(e["reuse_nid"])
+        for x in e["sub"]:
+            out |= self._nids(x)
+        for xs in e["on"].values():
+            for x in xs:
+                out |= self._nids(x)
+        return out
+
+    def _holds_uattr(self, e) -> bool:
+        return e["how"] == "uattr" or any(self._holds_uattr(x) for x in e["sub"]) or any(self._holds_uattr(x) for xs in e["on"].values() for x in xs)
+
+    def remember_sent(self, op):
+        """After an operation was sent: its method-built non-root nodes become candidates for re-use in later trees."""
+        for e in _all_nodes(op):
+            if e["how"] == "method" and not e.get("root") and e.get("nid") is not None and e.get("reuse_nid") is None and e.get("sid") is None:
+                if not any(n["nid"] == e["nid"] for n in self.sent_nodes):
+                    self.sent_nodes.append(e)
 
     def _arg_free(self, e) -> bool:
         if e["args"] or e["how"] == "uattr" or (e["how"] == "attr" and e["alias"]):
@@ -251,10 +281,30 @@ class ExprGen:
                     if reps == 2:
                         self.counter += 1
                         e["alias"] = None if r == 0 else "dup%d" % self.counter
+                        if e["alias"]:
+                            self.alias_seen.setdefault((t.name, fname), set()).add(e["alias"])
                     out.append(e)
-                    if e["how"] == "method" and (e["sub"] or e["on"]) and not e.get("root") and self._arg_free(e):
+                    if e["how"] == "method" and not e.get("root"):
                         e.setdefault("made_in", t.name)
+                        if e.get("nid") is None:
+                            self.nid += 1
+                            e["nid"] = self.nid
+                    if e["how"] == "method" and (e["sub"] or e["on"]) and not e.get("root") and self._arg_free(e):
                         self.sharable.append(e)
+        # a sub-object built for an EARLIER operation, placed into this new tree (at most once per operation)
+        if not leaf_only and self.sent_nodes and ch.chance("e.reuse_earlier_subobject", 1, 5):
+            # (no object may end up at two positions of this operation - that would be D10: candidates whose sub-tree shares
+            # an object with something already re-used here are left out)
+            cands = [n for n in self.sent_nodes if n["made_in"] == t.name and not (self._nids(n) & self.reused_in_op)
+                     and all((x["alias"] or x["gql"]) != (n["alias"] or n["gql"]) for x in out)
+                     and not self._holds_uattr(n)]
+            if cands:
+                n = cands[ch.draw("e.reuse_which", len(cands))]
+                import copy as _copy
+                c = _copy.deepcopy(n)
+                c["reuse_nid"] = n["nid"]
+                self.reused_in_op |= self._nids(n)
+                out.append(c)
         # the very same built object again, in another selection set
         if not leaf_only and self.sharable and ch.chance("e.share_subtree", 1, 3):
             cands = [n for n in self.sharable if n["made_in"] == t.name and id(n) not in [id(x) for x in out]
@@ -273,6 +323,7 @@ class ExprGen:
         ch = self.ch
         self.union_used_in_op = set()
         self.sharable = []
+        self.reused_in_op = set()
         root = self.schema.query_type if kind == "query" else self.schema.mutation_type
         if root is None:
             return None
@@ -357,9 +408,14 @@ def interpret(e: dict, pkg, schema, snake: bool, root_kind: Optional[str] = None
     """Build the live builder object for expression node e.  Nodes carrying the same "sid" are one object."""
     if shared is not None and e.get("sid") is not None and e["sid"] in shared:
         return shared[e["sid"]]
+    pool = shared.get("__pool__") if shared is not None else None
+    if pool is not None and e.get("reuse_nid") is not None and e["reuse_nid"] in pool:
+        return pool[e["reuse_nid"]]              # the very object built for an earlier operation
     obj = _interpret(e, pkg, schema, snake, root_kind, shared)
     if shared is not None and e.get("sid") is not None:
         shared[e["sid"]] = obj
+    if pool is not None and e.get("nid") is not None and e.get("reuse_nid") is None:
+        pool[e["nid"]] = obj
     return obj
 
 
@@ -425,7 +481,12 @@ def _interpret(e: dict, pkg, schema, snake: bool, root_kind: Optional[str] = Non
 # ------------------------------------------------------------------------------------
 # oracle: sent document vs expression + schema
 
-def check_document(op: dict, query_text: str, variables: Any, opname_sent: Any, schema, pkg, V):
+def check_document(op: dict, query_text: str, variables: Any, opname_sent: Any, schema, pkg, V, alias_seen=None):
+    alias_seen = alias_seen if alias_seen is not None else {}
+    # aliases of this very operation count too (the same attribute at another position of it)
+    for e_ in _all_nodes(op):
+        if e_["how"] in ("attr", "uattr") and e_["alias"]:
+            alias_seen.setdefault((e_["parent"], e_["gql"]), set()).add(e_["alias"])
     from graphql import GraphQLError, parse, validate
     from graphql.execution.values import get_variable_values
     try:
@@ -473,9 +534,14 @@ def check_document(op: dict, query_text: str, variables: Any, opname_sent: Any, 
             if f.name.value != e["gql"]:
                 V("field-name", "%s: sent as %r, its GraphQL name is %r" % (w, f.name.value, e["gql"]), how=e["how"])
             sent_alias = f.alias.value if f.alias else None
+            if e["how"] in ("attr", "uattr") and e["alias"]:
+                alias_seen.setdefault((e["parent"], e["gql"]), set()).add(e["alias"])
             if sent_alias != e["alias"]:
+                # D9 explains an alias that was given to the shared attribute earlier (or at another position) and is still
+                # there; it does not explain an alias that the expression asks for and the document lacks
+                stale = sent_alias is not None and sent_alias in alias_seen.get((e["parent"], e["gql"]), set())
                 V("alias-mismatch", "%s: sent with alias %r, the expression says %r" % (w, sent_alias, e["alias"]),
-                  shared_leaf=(e["how"] in ("attr", "uattr")))
+                  shared_leaf=(e["how"] in ("attr", "uattr")), kind="stale" if stale else ("lost" if sent_alias is None else "foreign"))
             gfield = parent_type.fields.get(e["gql"]) if hasattr(parent_type, "fields") else None
             want_args = {an: vs for an, vs in e["args"].items() if vs[0] != "none"}
             sent_args = {a.name.value: a.value for a in (f.arguments or ())}
@@ -640,7 +706,7 @@ def run_case(case, ch: Choices) -> RunResult:
             return cls(url="http://gql.test/graphql", http_client=httpx.Client(transport=SyncSimTransport(srv)))
 
         def send(client, op, pkg, prebuilt=None):
-            shared_objs: dict = {}
+            shared_objs: dict = {"__pool__": live_pool} if pkg is live else {}
             fields = prebuilt if prebuilt is not None else \
                 [interpret(e, pkg, schema, snake, root_kind=op["kind"], shared=shared_objs) for e in op["fields"]]   # harness + builder API
             last_built[0] = fields
@@ -660,9 +726,11 @@ def run_case(case, ch: Choices) -> RunResult:
             caps = captured[n0:]
             return (caps[-1] if caps else None), None
 
+        live_pool: Dict[int, Any] = {}
         last_built: List[Any] = [None]
         built_ops: List[Tuple[dict, list]] = []     # (expression, the live top-level objects built for it)
         shared_uses: Dict[Tuple[str, str], int] = {}
+        alias_seen = None        # (the expression generator's record, see below)
         eg = ExprGen(ch, schema, snake)
         client = make_client(live)
         nops = p.get("nops") or (2 + ch.draw("h.nops", 11))
@@ -743,7 +811,10 @@ def run_case(case, ch: Choices) -> RunResult:
             sent_docs.append((q, vs))
             trace.append("op#%d expr=%s" % (len(history) - 1, json.dumps(op)[:1200]))
             trace.append("      sent query=%r variables=%s" % (q, json.dumps(vs)[:400]))
-            check_document(op, q if isinstance(q, str) else "", vs, on, schema, live, V)
+            check_document(op, q if isinstance(q, str) else "", vs, on, schema, live, V, eg.alias_seen)
+            eg.remember_sent(op)
+            if any(e.get("reuse_nid") is not None for e in _all_nodes(op)):
+                res.bump("probe.subobject_of_earlier_operation_reused")
             res.bump("operations")
             if any(e["args"] for e in _all_nodes(op)):
                 res.bump("probe.operation_with_arguments")
